@@ -27,45 +27,6 @@ def finding_key(req, obs, detail):
         eot = re.compile(r"\((?:E|B|T) \(")
         if key.startswith("tree-differs") and " ==> " in (obs or "") and not eot.search(req) and eot.search(obs.split(" ==> ", 1)[1]):
             key = pre + "(bin BitwiseAnd (id a) (id a)))"
-        # an expression in an expression-or-type position (template argument, sizeof) is printed with format_expression
-        # and read under Terminator::TypeList: an exposed `>`-family operator, `,` or `<` is misread whatever carries the
-        # position (call / type of a cast / nested type) — one key per operator family
-        exact = ("rejected-by-parser ret (sizeof (E (bin RightShift (id a) (id a))))",
-                 "rejected-by-parser ret (cast (tyt (n S) (E (bin RightShift (id a) (id a)))) (id a))")
-        fam = re.search(r"\(E \(bin (RightShift|GreaterThan|GreaterEqual|Sequence|LessThan) ", key)
-        if fam and key not in exact and not key.startswith("src "):
-            op = fam.group(1)
-            if op == "Sequence":
-                key = "tree-differs[list-length] ret (call (id a) ((E (bin Sequence (id a) (id a)))) ())"
-            elif op == "LessThan":
-                key = "tree-differs[call->bin:LessThan] ret (call (id a) ((E (bin LessThan (id a) (id a)))) ())"
-            else:
-                key = "rejected-by-parser ret (call (id a) ((E (bin RightShift (id a) (id a)))) ())"
-            return key
-        # an attribute argument that is a comma expression: printed with format_expression, read with parse_expression_no_seq
-        # (statement stream: whatever statement carries the attribute; source stream: `[a((a, a))]`)
-        if (key.startswith("st ") and re.search(r"\(attr [12] \(n [^)]*\) \([^\n]*\(bin Sequence ", key)) or \
-                (key.startswith("src ") and re.search(r"\[ \[? ?\w+ \( \( \w+ , \w+ \) \) \]", key)):
-            return "st tree-differs[list-length] attribute argument (bin Sequence (id a) (id b))"
-        # source stream, three more printer defects found with the broadened module generator (one key each, whatever else the
-        # 1-minimal program keeps around the construct)
-        if key.startswith("src "):
-            if re.search(r"template < [^>]* > \[ ", key) and "rejected-by-parser" in key:
-                return "src rejected-by-parser template < a > [ a ] a a ( ) { }"
-            if re.search(r"struct \w+ : \w+(?: , \w+)* \{", key) and "tree-differs" in key:
-                return "src tree-differs[module] struct a { } ; struct a : a { } ;"
-            if re.search(r"enum \w+ \{[^}]*= \( \S+ , ", key):
-                return "src rejected-by-parser enum a { a = ( a , a ) } ;"
-            if re.search(r"\w+ (?:\[ \S+ \] )?(?:: \w+ )?= \( \S+ , \S+ \) [,)]", key) and "rejected-by-parser" in key:
-                return "src rejected-by-parser a a ( a a = ( a , a ) ) { }"
-        # definition stream: a default argument that is a comma expression is the same printer defect as the source-stream
-        # class above (printed bare with format_expression, `float p = y, 36`, read with parse_expression_no_seq)
-        if key.startswith("def rejected-by-parser ") and re.search(r"\(param [^\n]*\(def \(bin Sequence ", key):
-            return "src rejected-by-parser a a ( a a = ( a , a ) ) { }"
-        # source stream: a declarator whose array size is a parenthesised comma expression (one class, whatever
-        # statement the 1-minimal program wraps around it)
-        if key.startswith("src rejected-by-parser ") and re.search(r"(?:\ba|>|,) a \[ \( \w+ , \w+ \) \]", key):
-            key = "src rejected-by-parser a a ( ) { a a [ ( a , a ) ] ; }"
         return key
     m = re.match(r"FAIL:panic ([^:]+):\d+: (.*)$", detail or "")
     if m:
